@@ -18,9 +18,10 @@
       row = the entries, size and class invariant kept): after every history (any prefix length, sub-range const
       rows, flips forwarded to the base, index-range restrictions, clears) every cached cell, every returned row
       and entry() equal the base's ORIGINAL entry function under the COMPOSED permutation [cperm]; same
-      accounting clauses as in A (C09_composed_...).  The const overload row(k,start,end,storage) is shown safe
-      exactly when start <= cached length of line k (otherwise the code writes BEFORE the caller's buffer: the
-      model returns None; all library callers pass start = 0).  PrecomputedMatrix needs only that matrix() of the
+      accounting clauses as in A (C09_composed_...).  The const overload row(k,start,end,storage), as repaired by
+      f9a1ac31, is total: exactly the cells [start,end) for every start <= end <= size, cache state untouched
+      (before the repair it wrote before the buffer when start > cached length and past its end when
+      end < cached length; the comp stream guards both sides).  PrecomputedMatrix needs only that matrix() of the
       base state it is constructed from is correct (C09_precomputed_over_base_sound).
    D. Memory clauses at the CachedMatrix level in the composed setting: getCacheSize/getMaxCacheSize/cachedLines/
       getCacheRowSize after clear, setMaxCachedIndex (nothing freed, lines outside the range become the first
@@ -55,7 +56,8 @@
      guard cells in the harness and ASan/UBSan in the thorough tier.
    * kernels other than the linear one; OpenMP row loops; KernelMatrix::matrix (calculateRegularizedKernelMatrix)
      is modelled by its result in the ORIGINAL order; it ignores earlier flips (see C09More.v), so
-     PrecomputedMatrix over an already flipped KernelMatrix/Regularized/Modified is outside the theorems.
+     PrecomputedMatrix over an already flipped KernelMatrix/Regularized/Modified is outside the theorems
+     (known finding C09-PREFLIP: the comp stream generates such cases, model = implementation /= specification).
    * positive semi-definiteness is proved for the linear kernel only. *)
 From Coq Require Import List Arith.
 From Coq Require Import ZArith Permutation.
@@ -201,17 +203,17 @@ Theorem C09_composed_row_returns_original_entries :
 Proof. intros V B M ok FA b0 OK0 mx ops k a e. exact (composed_row ok FA b0 OK0 mx ops k a e). Qed.
 Print Assumptions C09_composed_row_returns_original_entries.
 
-(* row(k,a,e,storage) const: defined (no write before the buffer) iff a <= cached length; then it writes
-   max(cached,e)-a cells, all of them original entries of columns a, a+1, ... *)
+(* row(k,a,e,storage) const (as repaired by f9a1ac31): TOTAL; for every sub-range a <= e <= n it writes exactly the
+   e-a cells [a,e), all of them original entries under the composed order, whatever part of line k is cached
+   (shorter than a, longer than e, ...), and the cache state is unchanged *)
 Theorem C09_composed_const_row :
   forall (V B : Type) (M : MatOps V B) (ok : B -> Prop), flip_aware ok ->
   forall b0 : B, ok b0 -> forall (mx : nat) (ops : list gop) (k a e : nat),
     let s := grun (ginit b0 mx) ops in let p := cperm (bsize b0) ops in
     k < bsize b0 -> a <= e -> e <= bsize b0 ->
-    (gcm_row_const k a e s = None <-> glinelen s k < a) /\
-    forall l, gcm_row_const k a e s = Some l ->
-      length l = Nat.max (glinelen s k) e - a /\
-      forall c, c < length l -> nth c l gv = bentry b0 (nth k p 0) (nth (a + c) p 0).
+    gstep s (GRowC k a e) = s /\
+    length (gcm_row_const k a e s) = e - a /\
+    forall c, c < e - a -> nth c (gcm_row_const k a e s) gv = bentry b0 (nth k p 0) (nth (a + c) p 0).
 Proof. intros V B M ok FA b0 OK0 mx ops k a e. exact (composed_row_const ok FA b0 OK0 mx ops k a e). Qed.
 Print Assumptions C09_composed_const_row.
 
@@ -471,15 +473,16 @@ Definition ex_b0 : dm := dinit 3 [5; 6; 7]%Z [0; 1; 0].
 
 (* CachedMatrix<RegularizedKernelMatrix>, capacity 4: the hypotheses hold, the flip moves the cached line, a
    well-formed row request returns the entries under the composed order [2;1;0] and evicts the older line; the
-   const overload is undefined exactly for a start beyond the cached length *)
+   const overload inside the cached part, shorter than it, and on an uncached line with start > 0 *)
 Example C09_composed_example :
   let s1 := grun (M := reg_ops ex_k0) (ginit (M := reg_ops ex_k0) ex_b0 4) [GRow 0 0 3; GFlip 0 2] in
   reg_okP ex_b0 /\ gline s1 2 = [3; 2; 6]%Z /\ cperm 3 [GRow 0 0 3; GFlip 0 2] = [2; 1; 0] /\
   gwf_op (M := reg_ops ex_k0) s1 (GRow 1 0 2) = true /\
   gline (gstep (M := reg_ops ex_k0) s1 (GRow 1 0 2)) 1 = [6; 10]%Z /\
   glinelen (gstep (M := reg_ops ex_k0) s1 (GRow 1 0 2)) 2 = 0 /\
-  gcm_row_const (M := reg_ops ex_k0) 2 1 3 s1 = Some [2; 6]%Z /\
-  gcm_row_const (M := reg_ops ex_k0) 1 1 3 s1 = None.
+  gcm_row_const (M := reg_ops ex_k0) 2 1 3 s1 = [2; 6]%Z /\
+  gcm_row_const (M := reg_ops ex_k0) 2 0 1 s1 = [3]%Z /\
+  gcm_row_const (M := reg_ops ex_k0) 1 1 3 s1 = [10; 2]%Z.
 Proof. vm_compute. repeat split; reflexivity. Qed.
 
 (* five points in batches of sizes 2,2,1 (maximum batch size 2) resp. 3,2 (maximum 4); three pairs; the
